@@ -189,7 +189,7 @@ class ResetSpec(Spec):
             self.n_validate, self.validate_max_cycles = 2, 30_000
         else:
             self.time_budget = 780
-            self.n_validate, self.validate_max_cycles = 4, 400_000
+            self.n_validate, self.validate_max_cycles = 3, 300_000
         self.max_states = 3_000_000
 
     def build(self):
@@ -226,9 +226,16 @@ class ResetSpec(Spec):
         return (0, self.k, 0, Mon.INIT)
 
     def prologue(self, cur):
+        # the nominal prefix; if the oracle already fires there, the violation is re-raised by the single action offered
+        # in the initial state (position -1), so that it is reported as a violation with a (one-step) path
         env = self.env0()
-        for inp, dur in self.prefix:
-            env = self.apply(cur, env, ("nominal", 0, inp, dur, 0))
+        self._prefix_violation = None
+        try:
+            for inp, dur in self.prefix:
+                env = self.apply(cur, env, ("nominal", 0, inp, dur, 0))
+        except Violation as v:
+            self._prefix_violation = (v.rule, dict(v.detail or {}, in_nominal_prefix=[self.label(("nominal", 0, i, d, 0)) for i, d in self.prefix]))
+            return (-1, 0, 0, Mon.INIT)
         return env
 
     @staticmethod
@@ -241,6 +248,7 @@ class ResetSpec(Spec):
 
     def actions(self, env):
         pos, left, mask, _ = env
+        if pos < 0: return [("prefix", 0, (0, 0, 0, 0, 0, 0), 0, 0)]
         if pos >= len(self.script): return []
         inp, dur = self.script[pos]
         inp = self._mask(inp, mask)
@@ -271,6 +279,7 @@ class ResetSpec(Spec):
     def apply(self, cur, env, a):
         pos, left, mask, mt = env
         kind, adv, inp, dur, mask2 = a
+        if pos < 0: raise Violation(*self._prefix_violation)
         mon = Mon(mt)
         kw = dict(line_state=inp[0], vbus_connected=inp[1], disconnect=inp[2], full_speed_only=inp[3],
                   low_speed_only=inp[4], bus_busy=inp[5])
